@@ -498,7 +498,7 @@ CHECKS = {
         {"faults_fired": 3000, "sites": 2000, "failed_starts": 1500, "restarts_checked": 1500, "natural_checked": 50, "win_handle_cases": 5000},
         config="asan-nd", extra=win_handles_pass, assumptions=KERNEL_TRUST + ["Windows half only at the Win32 boundary (stubs): each Win32 call process_start depends on fails in turn; the error must come back, no process handle, no CreateProcessW after an earlier failure", "faults are injected at the libc boundary (a call returns -1/errno without being performed; close is performed first; waitpid/ECHILD is performed first)"]),
     "C05": scen_check(
-        [("eng_fault", "asan-nd"), ("eng_ident", "asan"), ("eng_ledger", "asan")], "fault_enumeration",
+        [("eng_fault", "asan-nd"), ("eng_ident", "asan"), ("eng_ledger", "asan-nd")], "fault_enumeration",
         "same campaign as C04 with the ownership ledger as oracle: every pipe/open/dup the library makes is owned, every "
         "close/free must hit an owned object exactly once, at the end of start/pid/start/terminate/kill/wait/destroy nothing "
         "may be owned, the /proc/self/fd table must equal the one before reproc_new, no child of the runner may be left and "
